@@ -1,6 +1,7 @@
 (* C05 -- requests are served by priority, first-come-first-served among equals. *)
 From Coq Require Import List ZArith Bool Arith.
 From FV Require Queue StoreP StorePInv StorePOrder StoreB StoreBInv StoreBOrder StoreQ.
+From FV Require World Factory FactoryInv FactoryQueue.
 Import ListNotations.
 
 (* in every reachable state both waiting queues are strictly sorted by (priority, arrival) *)
@@ -13,6 +14,17 @@ Theorem C05_queues_sorted_bound :
   forall k m c ops, StoreBOrder.QInv (StoreB.run (StoreB.init k m c) ops).
 Proof. exact StoreBOrder.qinv_reachable. Qed.
 Print Assumptions C05_queues_sorted_bound.
+
+(* the same inside factories: every configuration whose edges start with sorted (e.g. empty) waiting
+   queues, every number of kernel steps: on every edge of the factory both waiting queues are sorted
+   by (priority, arrival number) -- the node code reaches the stores only through their operations
+   (theories/Factory/FactoryQueue.v, lifted through every process block) *)
+Theorem C05_queues_sorted_in_every_factory :
+  forall nodes edges order n, Forall FactoryQueue.EOK edges ->
+    forall i ed, nth_error (World.wedges (FactoryInv.iter_fstep n (Factory.mk_world nodes edges order))) i = Some ed ->
+      StoreBOrder.QInv (World.est ed).
+Proof. exact FactoryQueue.queues_sorted_everywhere. Qed.
+Print Assumptions C05_queues_sorted_in_every_factory.
 
 (* every grant (one attempt of the trigger loop: trig_put / trig_get1; the filter store's trig_get
    iterates trig_get1 while it grants) serves the head, which precedes every other waiting request in the service order;
